@@ -81,6 +81,14 @@ def replay(r):
                         return True, "%s references, batch_size=%d: attributions of example %d differ from running it alone" % (mode, bs, i)
                     if not torch.equal(rf[i], base[i][1][0]):
                         return True, "%s references, batch_size=%d: references used for example %d differ from running it alone" % (mode, bs, i)
+            if r.get("history_ops"):
+                b0 = deep_lift_shap(model, X, batch_size=2, **kw)
+                other = dl.real_model(r.get("arch", "dense1"), A, L, seed=9)
+                act_cls = [type(m_) for m_ in other if not isinstance(m_, (torch.nn.Linear, torch.nn.Conv1d, torch.nn.Flatten, torch.nn.AvgPool1d, torch.nn.MaxPool1d))][0]
+                deep_lift_shap(other, X, additional_nonlinear_ops={act_cls: (lambda mod, gi, go: gi)}, **kw)
+                b1 = deep_lift_shap(model, X, batch_size=2, **kw)
+                if not torch.equal(b0, b1):
+                    return True, "%s references: the same call returns different attributions after an intermediate call with additional_nonlinear_ops" % mode
             perm = list(range(B))[::-1]
             a2 = deep_lift_shap(model, X[perm], batch_size=r.get("batch_size", 2), **(dict(kw, references=refs_t[perm]) if mode == "tensor" else kw))
             a1 = deep_lift_shap(model, X, batch_size=r.get("batch_size", 2), **kw)
@@ -124,6 +132,13 @@ def worker(cfg):
             sub = lambda idx: dict(kw, references=R[idx])
         rp = lambda m: dict(cfg, batch_size=core.model_value(m, bs))
         try:
+            before = None
+            if cfg.get("history_ops"):
+                before, _ = dls.deep_lift_shap(net, X, batch_size=10 ** 6, **kw)
+                # call order: an intermediate call with additional_nonlinear_ops (other model) must not change later results
+                other = dl.build(cfg.get("arch", "dense1"), A, L, seed=9, NN=NN)
+                act_cls = [type(m_) for m_ in other._modules.values() if type(m_).__name__ in nn.ACT_NAMES][0]
+                dls.deep_lift_shap(other, X, batch_size=10 ** 6, additional_nonlinear_ops={act_cls: (lambda mod, gi, go: gi)}, **dict(sub(list(range(B))), return_references=False))
             full, refs = dls.deep_lift_shap(net, X, batch_size=bs, **kw)
             singles = [dls.deep_lift_shap(net, X[[i]], batch_size=10 ** 6, **sub([i])) for i in range(B)]
             perm = list(range(B))[::-1]
@@ -146,6 +161,8 @@ def worker(cfg):
             cl_ref += [refs.a[(i,) + c] == r1.a[(0,) + c] for c in np.ndindex(*refs.shape[1:])]
         for k, i in enumerate(perm):
             cl += [pfull.a[(k,) + c] == full.a[(i,) + c] for c in np.ndindex(*full.shape[1:])]
+        if before is not None:
+            cl += [full.a[c] == before.a[c] for c in np.ndindex(*full.shape)]          # same call before and after another call: identical
         if mode == "fn":
             # shuffle j of example i is ref(x_i, random_state + j) in every batching
             for i in range(B):
@@ -176,7 +193,8 @@ def worker(cfg):
 def configs(tier):
     q = tier == "quick"
     cf = [dict(mode="fn", A=2, L=2, B=2, ns=2), dict(mode="tensor", A=2, L=2, B=2, ns=2, raw=True), dict(mode="fn", A=2, L=2, B=2, ns=3, hypothetical=True),
-          dict(mode="fn", A=2, L=2, B=3, ns=1), dict(mode="tensor", A=2, L=2, B=4, ns=1)]
+          dict(mode="fn", A=2, L=2, B=3, ns=1), dict(mode="tensor", A=2, L=2, B=4, ns=1),
+          dict(mode="tensor", A=2, L=2, B=2, ns=1, history_ops=True)]
     if not q:
         cf += [dict(mode="fn", A=2, L=3, B=3, ns=2), dict(mode="tensor", A=2, L=2, B=3, ns=3), dict(mode="fn", A=3, L=2, B=2, ns=3, raw=True, arch="conv")]
     return cf
